@@ -4,12 +4,16 @@
 #include <stddef.h>
 #include <string.h>
 #include <errno.h>
+#include <stdio.h>
+
+void __sanitizer_print_stack_trace(void);
 
 extern volatile int oom_in_api;
 extern volatile long oom_count;
 extern volatile long oom_fail_at;
 extern volatile int oom_fail_after;
 extern volatile long oom_failed;
+extern volatile int oom_armed;
 
 void* __real_malloc(size_t);
 void* __real_calloc(size_t, size_t);
@@ -19,12 +23,18 @@ char* __real_strndup(const char*, size_t);
 
 static int should_fail(void)
 {
-  if (!oom_in_api)
+  if (!oom_in_api || !oom_armed)
     return 0;
   long k = ++oom_count;
   if (oom_fail_at > 0 && (k == oom_fail_at || (oom_fail_after && k > oom_fail_at)))
   {
-    oom_failed++;
+    if (oom_failed++ == 0)
+    {
+      // where the injected failure happened (used as part of the finding key)
+      fprintf(stderr, "OOM-INJECTED k=%ld\n", k);
+      __sanitizer_print_stack_trace();
+      fprintf(stderr, "OOM-INJECTED-END\n");
+    }
     errno = ENOMEM;
     return 1;
   }
